@@ -841,6 +841,9 @@ class Interp:
         self.overrides["dict"] = lambda *a, **k: VDict(self, list(dict(*a, **k).items()) if not (a and isinstance(a[0], VDict)) else a[0].items())
         self.overrides["defaultdict"] = lambda factory=None: VDefaultDict(self, factory)
         self._VDict, self._VSet = VDict, VSet
+        od = Obj("OrderedDict", fromkeys=lambda keys, value=None: VDict(self, [(k, value) for k in _it(keys)]))
+        od.attrs["__call__"] = lambda *a, **k: self.overrides["dict"](*a, **k)
+        self.overrides["OrderedDict"] = od
         self.pytype_alias = {self.overrides["set"]: set, self.overrides["frozenset"]: (set, frozenset), self.overrides["dict"]: dict, self.overrides["defaultdict"]: dict}
 
     def new_dict(self):
@@ -1000,6 +1003,8 @@ class Interp:
     _DUNDER = {ast.Lt: "__lt__", ast.Gt: "__gt__", ast.LtE: "__le__", ast.GtE: "__ge__", ast.Eq: "__eq__", ast.NotEq: "__ne__"}
 
     def _call_cmp(self, x, name, y, node):
+        if isinstance(x, Obj) and name in x.attrs:
+            return x.attrs[name](y)  # supplied by the rule for an abstract (user-side) object
         k = self.obj_class(x)
         if k is None:
             return NotImplemented
@@ -1082,6 +1087,10 @@ class Interp:
             if op in (ast.In, ast.NotIn) and isinstance(b, (tuple, list, set, frozenset, dict)):
                 return any(x is a for x in b) == (op is ast.In)
             raise Unsupported(f"comparison on symbolic values: {norm(node)}")
+        if op in (ast.Eq, ast.NotEq) and isinstance(a, (tuple, list)) and isinstance(b, (tuple, list)) and type(a) is type(b) and (_has_obj(a) or _has_obj(b)):
+            # sequences compare element-wise with the elements' own (lifted) __eq__
+            same = len(a) == len(b) and all(x is y or self.truth(self.compare(ast.Eq, x, y, node), node) for x, y in zip(a, b))
+            return same if op is ast.Eq else not same
         if isinstance(a, list) and isinstance(b, tuple) and op in (ast.Eq, ast.NotEq):
             return (op is ast.NotEq)
         try:
@@ -1281,6 +1290,18 @@ class Interp:
     def call(self, f, args, kwargs, node, mod):
         if f is _b_isinstance:
             return self.isinstance_model(args[0], args[1], node)
+        if f is BUILTINS["hasattr"] and len(args) == 2 and self.obj_class(args[0]) is not None:
+            o, nm = args
+            if nm in o.attrs:
+                return True
+            k = self.obj_class(o)
+            if self.prog.lookup(k, nm) is not None:
+                return True
+            if any((kk.module.name, kk.name, nm) in self.class_attrs for kk in k.mro()):
+                return True
+            if getattr(self, "type_model", None) is not None and self.ufl_type_attr(k, nm, o) is not NotImplemented:
+                return True
+            return False
         if f is _b_len and len(args) == 1 and self.obj_class(args[0]) is not None and "__len__" not in args[0].attrs:
             m, _ = self.find_method(self.obj_class(args[0]), "__len__")
             if m is not None:
@@ -1391,6 +1412,14 @@ def _b_len(x):
             return x.attrs["__len__"]
         raise Unsupported(f"len() of {x.kind}")
     return len(x)
+
+
+def _has_obj(x):
+    if isinstance(x, Obj):
+        return True
+    if isinstance(x, (tuple, list)):
+        return any(_has_obj(y) for y in x)
+    return False
 
 
 def _plain(x):
